@@ -51,28 +51,28 @@ func (e *Engine) specCall(env *SpecEnv, x *SExpr) Value {
 		sfail("cap of non-slice")
 	case "isNaN":
 		need(1)
-		return app(SBool, "fp.isNaN", e.evalSpecTerm(env, args[0]))
+		return app(SBool, "f64.isNaN", e.evalSpecTerm(env, args[0]))
 	case "isInf":
 		v := e.evalSpecTerm(env, args[0])
-		inf := app(SBool, "fp.isInfinite", v)
+		pos, neg := app(SBool, "f64.isPosInf", v), app(SBool, "f64.isNegInf", v)
 		if len(args) == 2 {
 			s := e.evalSpecTerm(env, args[1])
 			n, ok := isIntLit(s)
 			if !ok {
 				if s.S == "(- 1)" {
-					return And(inf, app(SBool, "fp.isNegative", v))
+					return neg
 				}
 				sfail("isInf sign must be a literal")
 			}
 			if n > 0 {
-				return And(inf, app(SBool, "fp.isPositive", v))
+				return pos
 			}
 			if n == 0 {
-				return inf
+				return Or(pos, neg)
 			}
-			return And(inf, app(SBool, "fp.isNegative", v))
+			return neg
 		}
-		return inf
+		return Or(pos, neg)
 	case "same":
 		need(2)
 		a := e.evalSpec(env, args[0])
@@ -174,6 +174,91 @@ func (e *Engine) specCall(env *SpecEnv, x *SExpr) Value {
 		}
 		mf := e.methodFunc(mr)
 		return e.pureMethodResult(env.st, mf, recv, av)
+	case "timeSub":
+		need(2)
+		f := e.ctx.Func("Time.Sub", []*Sort{SInt, SInt}, SInt)
+		return T("("+f+" "+e.evalSpecTerm(env, args[0]).S+" "+e.evalSpecTerm(env, args[1]).S+")", SInt)
+	case "iface2":
+		need(2)
+		return IfaceV{Tag: e.evalSpecTerm(env, args[0]), Pay: e.evalSpecTerm(env, args[1])}
+	case "nilslice":
+		z := IntLit(0)
+		return SliceV{Arr: z, Off: z, Len: z, Cap: z}
+	case "itoa":
+		need(1)
+		f := e.ctx.Func("strconv.Itoa", []*Sort{SInt}, SStr)
+		return T("("+f+" "+e.evalSpecTerm(env, args[0]).S+")", SStr)
+	case "durationString":
+		need(1)
+		f := e.ctx.Func("Duration.String", []*Sort{SInt}, SStr)
+		return T("("+f+" "+e.evalSpecTerm(env, args[0]).S+")", SStr)
+	case "f2i":
+		// f2i(T, x): Go conversion T(x) of a float to integer type T
+		need(2)
+		tv, ok := e.evalSpec(env, args[0]).(TypeV)
+		if !ok {
+			sfail("f2i(T, x) needs a type")
+		}
+		f := e.ctx.Func("f2i:"+shortType(tv.T), []*Sort{SF64}, SInt)
+		return T("("+f+" "+e.evalSpecTerm(env, args[1]).S+")", SInt)
+	case "typed":
+		need(2)
+		tv, ok := e.evalSpec(env, args[0]).(TypeV)
+		if !ok {
+			sfail("typed(T, v) needs a type")
+		}
+		return TypedV{tv.T, e.evalSpec(env, args[1])}
+	case "sprintf":
+		// the same uninterpreted function the executor uses for fmt.Sprintf
+		if len(args) < 1 {
+			sfail("sprintf(format, args...)")
+		}
+		flat := []Term{e.evalSpecTerm(env, args[0])}
+		for _, a := range args[1:] {
+			v := e.evalSpec(env, a)
+			var t types.Type
+			if tv, ok := v.(TypedV); ok {
+				t, v = tv.T, tv.V
+			} else if tm, ok := v.(Term); ok {
+				switch tm.Sort.K {
+				case KStr:
+					t = types.Typ[types.String]
+				case KF64:
+					t = types.Typ[types.Float64]
+				case KBool:
+					t = types.Typ[types.Bool]
+				default:
+					sfail("sprintf: integer argument needs typed(T, v)")
+				}
+			} else {
+				sfail("sprintf: unsupported argument")
+			}
+			flat = append(flat, e.typeTag(t))
+			flat = append(flat, e.flat(v)...)
+		}
+		var sorts []*Sort
+		var sk []string
+		for _, t := range flat {
+			sorts = append(sorts, t.Sort)
+			sk = append(sk, t.Sort.String())
+		}
+		f := e.ctx.Func("fmt.Sprintf/"+strings.Join(sk, ","), sorts, SStr)
+		var sb strings.Builder
+		sb.WriteString("(" + f)
+		for _, t := range flat {
+			sb.WriteString(" " + t.S)
+		}
+		sb.WriteString(")")
+		return T(sb.String(), SStr)
+	case "ires":
+		// ires(i): interface-typed result of the recorded call at trace index i
+		need(1)
+		i := e.evalSpecTerm(env, args[0])
+		return IfaceV{Tag: Select(env.st.callsR[0], i), Pay: Select(env.st.callsR[1], i)}
+	case "res0", "res1", "res2":
+		need(1)
+		i := e.evalSpecTerm(env, args[0])
+		return Select(env.st.callsR[int(name[3]-'0')], i)
 	case "evn":
 		// evn("name", args...): engine-defined events (chan.close, go:..., conn.Write)
 		if len(args) < 1 || args[0].Op != "str" {
@@ -198,7 +283,7 @@ func (e *Engine) specCall(env *SpecEnv, x *SExpr) Value {
 		if v.Sort.K == KF64 {
 			return v
 		}
-		return T("((_ to_fp 11 53) RNE (to_real "+v.S+"))", SF64)
+		return T("(i2f "+v.S+")", SF64)
 	case "bits":
 		need(1)
 		return e.f64bits(env.st, e.evalSpecTerm(env, args[0]))
@@ -350,7 +435,7 @@ func (e *Engine) specCall(env *SpecEnv, x *SExpr) Value {
 		v := e.evalSpec(env, args[0])
 		if t, ok := v.(Term); ok {
 			if isFloat(tv.T) && t.Sort.K == KInt {
-				return T("((_ to_fp 11 53) RNE (to_real "+t.S+"))", SF64)
+				return T("(i2f "+t.S+")", SF64)
 			}
 			return t
 		}
@@ -358,6 +443,12 @@ func (e *Engine) specCall(env *SpecEnv, x *SExpr) Value {
 	}
 	sfail("unknown specification function %s", fnx)
 	return nil
+}
+
+// TypedV: a value with an explicit Go type (spec evaluation only)
+type TypedV struct {
+	T types.Type
+	V Value
 }
 
 func (e *Engine) tryType(env *SpecEnv, x *SExpr) (tv TypeV, ok bool) {
@@ -495,8 +586,20 @@ func (e *Engine) eventTerm(key string, args []Term) Term {
 }
 
 // event appends an event to the ghost trace.
-func (e *Engine) eventNamed(st *State, key string, args []Term) {
+func (e *Engine) eventNamed(st *State, key string, args []Term) { e.eventRes(st, key, args, nil) }
+
+// eventRes appends an event together with the (flattened) result of the call.
+func (e *Engine) eventRes(st *State, key string, args []Term, res []Term) {
 	ev := e.eventTerm(key, args)
+	if len(res) > len(st.callsR) {
+		panic(unsupported("recorded call with more than 3 result words: " + key))
+	}
+	for i, r := range res {
+		if r.Sort.K != KInt {
+			panic(unsupported("recorded call with a non-integer result word: " + key))
+		}
+		st.callsR[i] = e.ctx.Define("callsR", Store(st.callsR[i], st.callsLen, r))
+	}
 	st.calls = e.ctx.Define("calls", Store(st.calls, st.callsLen, ev))
 	st.callsLen = e.ctx.Define("callsLen", Add(st.callsLen, IntLit(1)))
 }
